@@ -37,7 +37,8 @@ def render(us, style, rng, record=None):
     """style: 'line' (one token per line), 'single' (one line, pragmas excepted), 'tight' (no blank
     wherever two tokens may be adjacent), 'indent' (random
     blanks/tabs/newlines), 'markers' (linemarkers between arbitrary tokens), 'samemarker' (the *same*
-    linemarker before every token: all tokens get one and the same file:line:column).  In the random
+    linemarker before every token: all tokens get one and the same file:line:column), 'litmarker' (a
+    file-less #line / # N directive in front of literals, each of which then stands alone on its line).  In the random
     styles a #pragma line gets random blanks before '#', after it, before its text and at its end.
     record: optional list receiving (spelling, line, col, file) per token as laid out."""
     parts = []
@@ -83,13 +84,30 @@ def render(us, style, rng, record=None):
             n = rng.randrange(1, 900)
             f = rng.choice(["a.h", "dir/b.c", "f.c"])
             form = rng.random()
-            if form < 0.5:
+            if form < 0.4:
                 parts.append('# %d "%s"\n' % (n, f))
-            elif form < 0.8:      # gcc linemarker with flags
+            elif form < 0.6:      # gcc linemarker with flags
                 parts.append('# %d "%s" %s\n' % (n, f, " ".join(str(rng.randrange(1, 5)) for _ in range(rng.randrange(1, 4)))))
-            else:
+            elif form < 0.75:
                 parts.append('#line %d "%s"\n' % (n, f))
+            else:                 # no file name: the line changes, the file stays
+                parts.append(rng.choice(['# %d\n', '#line %d\n', '#  line  %d \n']) % n)
+                f = state["file"]
             state["line"], state["col"], state["file"] = n, 1, f
+        lit = style == "litmarker" and (val[0] in "\"'0123456789" or (val[0] in "LuU" and ("\"" in val or "'" in val)))
+        if lit and rng.random() < 0.6:
+            # a directive without file name, then the literal alone on its line: the directive ends at
+            # its own newline, whatever the next line looks like
+            if state["col"] != 1:
+                put("\n")
+            n = rng.randrange(1, 900)
+            parts.append(rng.choice(['# %d\n', '#line %d\n', '# %d \n', '#line %d\t\n']) % n)
+            state["line"], state["col"] = n, 1
+            if record is not None:
+                record.append((val, state["line"], state["col"], state["file"]))
+            put(val)
+            put("\n")
+            continue
         if record is not None:
             record.append((val, state["line"], state["col"], state["file"]))
         put(val)
